@@ -100,3 +100,16 @@ Theorem C20_weak_sandbox_leaks :
   q_log (get_req 1 (c_w (poll_task true 1 1 c))) = [(9, 8, 2, (-1)%Z, (-1)%Z, (-1)%Z)].
 Proof. exact weak_sandbox_leaks. Qed.
 Print Assumptions C20_weak_sandbox_leaks.
+
+(** (c) a request whose owner is a child of the ambient owner instead of a root (the
+    server-function handler of leptos_axum / leptos_actix before the repair of F-C20-b): next to
+    a page request it observes that request's owner and root context (101), and dropping the
+    page's root runs its cleanup (7); with a root of its own, as coded now, neither happens *)
+Theorem C20_server_fn_child_owner_leaks : forall sb,
+  let c0 := run_sched sb [SStart 1; SPoll 1 0] (init_world sfn_progs) in
+  q_log (get_req 2 (c_w (poll_task sb 2 0 (start_child sb 2 c0)))) = [(1, 10, 1, 101%Z, (-1)%Z, (-9)%Z)] /\
+  q_clog (get_req 1 (c_w (drop_req sb 1 (poll_task sb 2 0 (start_child sb 2 c0))))) = [(7%Z, 1)] /\
+  q_log (get_req 2 (c_w (poll_task sb 2 0 (start sb 2 c0)))) = [(1, 10, 2, (-1)%Z, (-1)%Z, (-9)%Z)] /\
+  q_clog (get_req 1 (c_w (drop_req sb 1 (poll_task sb 2 0 (start sb 2 c0))))) = [].
+Proof. exact server_fn_child_owner_leaks. Qed.
+Print Assumptions C20_server_fn_child_owner_leaks.
